@@ -327,7 +327,7 @@ class PipeConn:
 
     def __init__(self, server_proto, impl, client_proto, behaviours: list[str], tap: bool = False) -> None:
         self.server = RpcServer(server_proto, impl, enable_describe=True)
-        install_hooks(self.server, behaviours)
+        self.counter = install_hooks(self.server, behaviours)
         ct, self.st = make_pipe_pair()
         self.c2s, self.s2c = bytearray(), bytearray()
         self.ct = PipeTransport(_TeeReader(ct.reader, self.s2c), _TeeWriter(ct.writer, self.c2s)) if tap else ct
@@ -401,7 +401,7 @@ class HttpConn:
         from vgi_rpc.http._testing import make_sync_client
 
         self.server = RpcServer(server_proto, impl, enable_describe=True)
-        install_hooks(self.server, behaviours)
+        self.counter = install_hooks(self.server, behaviours)      # token serials; reset per script by the driver
         kw.setdefault("compression_level", None)
         self.inner = make_sync_client(self.server, token_key=b"k" * 32, **kw)
         self.client = _TapClient(self.inner)
